@@ -70,6 +70,8 @@ BPrim(t, i) ==
   IF i > Len(t) THEN BFail("operand-missing", i)
   ELSE LET tk == t[i] IN
     IF tk.k \in {"real", "int"} THEN <<TRUE, N4("num", tk.n, tk.d, tk.k), i + 1>>
+    \* a hexadecimal constant is a 16-bit INTEGER: $8000..$FFFF are negative
+    ELSE IF tk.k = "hexint" THEN <<TRUE, N4("num", IF tk.n >= 32768 /\ tk.n <= 65535 THEN tk.n - 65536 ELSE tk.n, 1, "int"), i + 1>>
     ELSE IF tk.k = "big" THEN <<TRUE, N4("big", tk.v, "", ""), i + 1>>
     ELSE IF tk.k = "str" THEN <<TRUE, N4("str", tk.s, "", ""), i + 1>>
     ELSE IF IsOpT(tk, "-") \/ IsOpT(tk, "+") THEN
@@ -121,7 +123,7 @@ ClauseOf(r) == r[2][2]
 \* subscripts of a declaration: int {, int} )
 RECURSIVE BDims(_, _, _)
 BDims(s, i, acc) ==
-  IF i <= Len(s) /\ s[i].k = "int" THEN
+  IF i <= Len(s) /\ s[i].k \in {"int", "hexint"} THEN
      IF i + 1 <= Len(s) /\ IsOpT(s[i + 1], ",") THEN BDims(s, i + 2, Append(acc, s[i].n))
      ELSE IF i + 1 <= Len(s) /\ IsOpT(s[i + 1], ")") THEN <<TRUE, Append(acc, s[i].n), i + 2>>
      ELSE <<FALSE, acc, i>>
